@@ -150,4 +150,48 @@ theorem media_type : Gen.lfsMediaType = "application/vnd.git-lfs+json" := by dec
 example : validate Gen.batchRequestSchema (encBatch ⟨"upload", [⟨"aa", 3⟩, ⟨"bb", 0⟩], ["basic"], "refs/heads/x"⟩) = true :=
   batch_request_valid _ (by simp)
 
+/-- one step: whatever adapter was running, the objects of an answer are carried by the adapter the
+    answer names — `basic` when it names none, or one that is not configured -/
+theorem adapter_is_the_one_the_answer_names (avail : List String) (hb : "basic" ∈ avail) (cur : Option String)
+    (hc : ∀ c, cur = some c → c ∈ avail) (name : String) :
+    useAdapter avail cur name = some (resolveAdapter avail name) := by
+  unfold useAdapter
+  by_cases h : cur = some name
+  · rw [if_pos h]
+    have : name ∈ avail := hc name h
+    simp [resolveAdapter, this, h]
+  · rw [if_neg h]
+
+theorem resolveAdapter_mem (avail : List String) (hb : "basic" ∈ avail) (name : String) :
+    resolveAdapter avail name ∈ avail := by
+  unfold resolveAdapter; split <;> assumption
+
+/-- … for every history of answers: the adapter in charge depends on the LATEST answer only -/
+theorem adapter_follows_latest_answer (avail : List String) (hb : "basic" ∈ avail) (answers : List String) (last : String)
+    (cur : Option String) (hc : ∀ c, cur = some c → c ∈ avail) :
+    adapterAfter avail cur (answers ++ [last]) = some (resolveAdapter avail last) := by
+  unfold adapterAfter
+  rw [List.foldl_append]
+  simp only [List.foldl_cons, List.foldl_nil]
+  apply adapter_is_the_one_the_answer_names avail hb
+  -- the invariant `cur ∈ avail` is kept by every step
+  induction answers generalizing cur with
+  | nil => simpa using hc
+  | cons a rest ih =>
+    simp only [List.foldl_cons]
+    apply ih
+    intro c hcc
+    rw [adapter_is_the_one_the_answer_names avail hb cur hc a] at hcc
+    cases hcc
+    exact resolveAdapter_mem avail hb a
+
+/-- an answer without a `transfer` member is a basic answer, whatever came before -/
+theorem omitted_transfer_means_basic (avail : List String) (hb : "basic" ∈ avail) (hn : "" ∉ avail)
+    (answers : List String) (cur : Option String) (hc : ∀ c, cur = some c → c ∈ avail) :
+    adapterAfter avail cur (answers ++ [""]) = some "basic" := by
+  rw [adapter_follows_latest_answer avail hb answers "" cur hc]
+  simp [resolveAdapter, hn]
+
+example : adapterAfter ["basic", "tus"] none ["tus", ""] = some "basic" := by decide
+
 end C18
